@@ -229,6 +229,12 @@ SEEDS = [
     # when with flows in scope
     ("flow main\n  start f1\n  match Never()\n\nflow f1\n  when f2\n    match E3()\n  or when f3\n    match E3()\n  or when E0()\n    start UtteranceBotAction(script=\"a\")\n    match E3()\n\nflow f2\n  await UtteranceBotAction(script=\"b\")\n\nflow f3\n  start TimerBotAction(timer_name=\"t\", duration=1.0)\n  match E1()\n",
      [["ev", 0], ["finished", 0], ["ev", 3]]),
+    # explicit `send $action.Stop()`, then the flow ends: the action was already stopped
+    ("flow main\n  start f1\n  match Never()\n\nflow f1\n  start UtteranceBotAction(script=\"a\") as $a1\n  start TimerBotAction(timer_name=\"t\", duration=1.0)\n  match E0()\n  send $a1.Stop()\n  match E1()\n",
+     [["ev", 0], ["ev", 1]]),
+    # ... or is stopped by its parent
+    ("flow main\n  start f1 as $r1\n  match E1()\n  send $r1.Stop()\n  match Never()\n\nflow f1\n  start UtteranceBotAction(script=\"a\") as $a1\n  start f2\n  match E0()\n  send $a1.Stop()\n  match Never()\n\nflow f2\n  await GestureBotAction(gesture=\"g\")\n",
+     [["ev", 0], ["ev", 1], ["finished", 0]]),
     ("flow main\n  start f1\n  match Never()\n\nflow f1\n  when f2\n    match E3()\n  or when f3\n    match E3()\n\nflow f2\n  await UtteranceBotAction(script=\"b\")\n\nflow f3\n  start TimerBotAction(timer_name=\"t\", duration=1.0)\n  match E1()\n",
      [["ev", 1], ["finished", 0], ["ev", 3]]),
 ]
